@@ -244,6 +244,17 @@ def fv_fstr(*parts):
             v = ascii(v)
         return format(v, spec or "")
 
+    def user_str(p_):
+        # an object whose Python-level __str__ yields a finite-choice value: str() would reject the proxy, so call it directly
+        v, conv, spec = p_
+        f = getattr(type(v), "__str__", None)
+        if conv in (-1, ord("s")) and not spec and isinstance(f, types.FunctionType) and not isinstance(v, cvm.CV):
+            r = f(v)
+            if isinstance(r, (cvm.CV, builtins.str)):
+                return (r, -1, spec)
+        return p_
+
+    parts = tuple(user_str(p_) if isinstance(p_, tuple) else p_ for p_ in parts)
     vals = [p_[0] for p_ in parts if isinstance(p_, tuple)]
     specs = [p_[2] for p_ in parts if isinstance(p_, tuple)]
     if any(isinstance(v, cvm.CV) for v in vals + specs):
